@@ -66,3 +66,14 @@ class ModEqIff:
            "implies((A - B) % m == 0, by(k - qa + qb == 0, A % m - B % m == m * (k - qa + qb), 0 <= A % m, A % m < m, "
            "0 <= B % m, B % m < m, m >= 1))"]
   concl = ["(A % m == B % m) == ((A - B) % m == 0)"]
+
+
+@lemma("cong_lin")
+class CongLin:
+  """multiples of n are closed under integer linear combinations"""
+  vars = {"x": "int", "y": "int", "u": "int", "v": "int", "n": "int"}
+  hyps = ["n >= 1", "x % n == 0", "y % n == 0"]
+  proof = ["let k1 = idiv(x, n)", "let k2 = idiv(y, n)", "divmod_def(x, n) and divmod_def(y, n)",
+           "by(u * x + v * y == 0 + n * (u * k1 + v * k2), x == n * k1, y == n * k2)",
+           "euclid(u * x + v * y, n, 0, u * k1 + v * k2)"]
+  concl = ["(u * x + v * y) % n == 0"]
